@@ -29,7 +29,8 @@ namespace GeographicLib {
       georef = "INVALID";
       return;
     }
-    lon = Math::AngNormalize(lon); // lon in [-180,180)
+    lon = Math::AngNormalize(lon);
+    if (lon == Math::hd) lon = -Math::hd; // lon now in [-180,180)
     if (lat == Math::qd) lat *= (1 - numeric_limits<real>::epsilon() / 2);
     prec = max(-1, min(int(maxprec_), prec));
     if (prec == 1) ++prec;      // Disallow prec = 1
